@@ -84,35 +84,98 @@ class LPM:
                 if isinstance(n, ast.Call) and isinstance(n.func, ast.Attribute)
                 and n.func.attr == method and self.is_q(n.func.value)]
 
-    def _branches(self):
-        """list of (label, stmts, node) for the top-level if/elif chain on `backend`; which arm of an `if`
-        holds the adapters and which continues the chain is decided by content, not by position"""
-        out = []
-        chain = [n for n in self.fn.body if isinstance(n, ast.If) and any(A.is_name(x, 'backend') for x in ast.walk(n.test))
-                 and any(isinstance(s, A.FUNC_TYPES) for s in ast.walk(n))]
-        if not chain:
+    # the documented values of `backend` (docstring of lazy_parallel_map) plus one undocumented value
+    BACKENDS = ['mp', 'multiprocessing', 'dill_mp', 't', 'thread', 'concurrent_mp', False]
+    UNKNOWN = '<any other value>'
+
+    @staticmethod
+    def eval_test(test, value, name='backend'):
+        """truth of `test` when <name> == value; None if it depends on something else"""
+        if isinstance(test, ast.UnaryOp) and isinstance(test.op, ast.Not):
+            r = LPM.eval_test(test.operand, value, name)
+            return None if r is None else not r
+        if isinstance(test, ast.BoolOp):
+            rs = [LPM.eval_test(v, value, name) for v in test.values]
+            if isinstance(test.op, ast.And):
+                return False if False in rs else (None if None in rs else True)
+            return True if True in rs else (None if None in rs else False)
+        if isinstance(test, ast.Compare) and len(test.ops) == 1 and A.is_name(test.left, name):
+            op, rhs = test.ops[0], test.comparators[0]
+
+            def same(v):
+                return (v is value) if (isinstance(value, bool) or isinstance(v, bool)) else (v == value)
+            if isinstance(rhs, (ast.List, ast.Tuple, ast.Set)) and isinstance(op, (ast.In, ast.NotIn)):
+                if not all(isinstance(e, ast.Constant) for e in rhs.elts):
+                    return None
+                r = any(same(e.value) for e in rhs.elts)
+                return r if isinstance(op, ast.In) else not r
+            if not isinstance(rhs, ast.Constant):
+                return None
+            if isinstance(op, (ast.Eq, ast.Is)):
+                return same(rhs.value)
+            if isinstance(op, (ast.NotEq, ast.IsNot)):
+                return not same(rhs.value)
+        return None
+
+    @staticmethod
+    def run_stmts(stmts, value, out, name='backend'):
+        """statements executed for this backend value, in order; stops at a raise. Returns False when it raised."""
+        for st in stmts:
+            if isinstance(st, ast.If) and any(A.is_name(x, name) for x in ast.walk(st.test)):
+                r = LPM.eval_test(st.test, value, name)
+                if r is None:
+                    out.append(('undecided', st))
+                    return True
+                if not LPM.run_stmts(st.body if r else st.orelse, value, out, name):
+                    return False
+            elif isinstance(st, ast.Raise):
+                out.append(('raise', st))
+                return False
+            else:
+                out.append(('stmt', st))
+        return True
+
+    def dispatch(self):
+        """the statement(s) of the function body that dispatch on `backend` and define the adapters"""
+        d = [n for n in self.fn.body if isinstance(n, ast.If) and any(A.is_name(x, 'backend') for x in ast.walk(n.test)) and any(
+            isinstance(x, A.FUNC_TYPES) for x in ast.walk(n))]
+        if not d:
             raise AnalysisError('undecidable shape: backend dispatch chain not found')
+        # with the canonical early-exit form the chain may continue after the first `if`
+        k = [i for i, n in enumerate(self.fn.body) if n is d[0]][0]
+        tail = []
+        for n in self.fn.body[k:]:
+            if n is self.with_ or any(x is self.with_ for x in ast.walk(n)):
+                break
+            tail.append(n)
+        return tail
+
+    def _branches(self):
+        """list of (label, stmts, node): the statements executed for each documented backend value, obtained by
+        evaluating the dispatch for that value (values that execute the same statements share one entry). The polarity
+        and nesting of the tests do not matter."""
+        disp = self.dispatch()
+        groups = []
         self.else_body = []
-
-        def has_adapters(stmts):
-            return any(isinstance(s, A.FUNC_TYPES) for s in stmts)
-
-        def walk(node):
-            t, neg = A.strip_not(node.test)
-            arms = [(A.short(t, 60) if not neg else 'not (%s)' % A.short(t, 55), node.body),
-                    ('else of ' + A.short(node.test, 50), node.orelse)]
-            for i, (label, stmts) in enumerate(arms):
-                if has_adapters(stmts):
-                    lab = A.short(t, 60) if (i == 0) != neg else 'not (%s)' % A.short(t, 55)
-                    if (i == 1) and not neg:
-                        lab = 'else of ' + A.short(t, 50)
-                    out.append((lab, stmts, node))
-                elif len(stmts) == 1 and isinstance(stmts[0], ast.If) and any(
-                        A.is_name(x, 'backend') for x in ast.walk(stmts[0].test)):
-                    walk(stmts[0])
-                else:
-                    self.else_body = list(self.else_body) + list(stmts)
-        walk(chain[0])
+        for value in self.BACKENDS + [self.UNKNOWN]:
+            out = []
+            self.run_stmts(disp, 'no-such-backend' if value is self.UNKNOWN else value, out)
+            stmts = [st for k, st in out if k in ('stmt', 'raise')]
+            if value is self.UNKNOWN:
+                self.else_body = stmts
+                continue
+            for g in groups:
+                if len(g[1]) == len(stmts) and all(a is b for a, b in zip(g[1], stmts)):
+                    g[0].append(value)
+                    break
+            else:
+                groups.append(([value], stmts))
+        out = []
+        self.branch_values = {}
+        for values, stmts in groups:
+            node = stmts[0] if stmts else disp[0]
+            self.branch_values['backend in %r' % (values,) if len(values) > 1 else 'backend == %r' % (values[0],)] = values
+            out.append(('backend in %r' % (values,) if len(values) > 1 else 'backend == %r' % (values[0],), stmts, node))
         return out
 
     def adapters(self, stmts):
